@@ -175,6 +175,22 @@ let run_confrec (fn : string) (bs : BinNums.coq_N list) : (string * string) opti
      | _ -> Some ("err", ""))
   | _ -> None
 
+let payload_value (k : int) (size : coq_N) (total : coq_N list) (r : (coq_N list * bool) res) : string * string =
+  match r with
+  | Ok (pl, _) ->
+    if pl = total then ("ok", Printf.sprintf "%x;%s;%s" k (hex_of_bytes pl) (hex_of_n size))
+    else ("ok", "partial-and-total-models-differ:" ^ hex_of_bytes pl ^ "/" ^ hex_of_bytes total)
+  | Err -> ("err", "")
+  | Panic -> ("panic", "")
+  | OutOfFuel -> ("hang", "")
+
+let tc_payload_value (cs : C17TypedModel.clock list) : string * string =
+  payload_value (L.length cs) (C17TypedModel.tc_size cs) (C17TypedModel.tc_payload cs) (C16SeiFswModel.tc_payload_p cs)
+
+let pt_payload_value (m : C17TypedModel.pic_timing) : string * string =
+  payload_value (L.length m.C17TypedModel.p_clocks) (C17TypedModel.pt_size m) (C17TypedModel.pt_payload m)
+    (C16SeiFswModel.pt_payload_p m)
+
 let run (fn : string) (bs : coq_N list) (arg : int) : string * string =
   match fn with
   | "avc.ParseSPSNALUnit" -> show1 sps_string (c16_parse_sps (arg land 1 = 1) bs)
@@ -206,6 +222,25 @@ let run (fn : string) (bs : coq_N list) (arg : int) : string * string =
     (match C16AuxModel.cll_decode_p bs with
      | Ok m -> show1 (fun pl -> hex_of_bytes pl ^ ";4") (C16SeiStrModel.cll_payload_p m)
      | r -> show1 (fun _ -> "") r)
+  (* decode / build a message value, then Payload() through the partial bits.FixedSliceWriter of C16SeiFswModel and
+     Size(): clocks;bytes;size.  The total C17 model of the same Payload (fsw_bytes) must give the same bytes. *)
+  | "sei.TimeCodeDecodePayload#v" ->
+    (match C17TypedModel.tc_decode bs with
+     | Ok cs -> tc_payload_value cs
+     | r -> show1 (fun _ -> "") r)
+  | "sei.PicTimingAvcDecodePayload#v" ->
+    let fld k = n_of_int ((arg lsr k) land 31) in
+    let ext = if arg land 1 = 1
+      then Some { C17TypedModel.h_cpb_delay = N0; h_dpb_delay = N0; h_init_len1 = N0; h_cpb_len1 = fld 1; h_dpb_len1 = fld 6 }
+      else None in
+    (match C17TypedModel.pt_decode ext (fld 11) bs with
+     | Ok m -> pt_payload_value m
+     | r -> show1 (fun _ -> "") r)
+  | "sei.TimeCodeSEI.Payload#v" -> tc_payload_value (C16SeiFswModel.tc_value_of_bytes bs)
+  | "sei.PicTimingAvcSEI.Payload#v" ->
+    (match C16SeiFswModel.pt_value_of_bytes bs with
+     | Some m -> pt_payload_value m
+     | None -> ("err", ""))
   | "sei.DecodeTimeCodeSEI" -> show1 (fun cs -> string_of_int (L.length cs)) (C17TypedModel.tc_decode bs)
   | "sei.DecodePicTimingAvcSEIHRD" ->
     let fld k = n_of_int ((arg lsr k) land 31) in
